@@ -18,9 +18,9 @@ EXPLANATION = (
     "instances.  (3) frame condition: parse/render leave options, rule tables, render rules and module-level mutable objects unchanged."
 )
 BOUNDS = {
-    "quick": "(1) rulers of 3 rules (symbolic enabled flags, 3 alt layouts), 2 callers, <= 2 pre-emptions, cold cache; (2) fixed documents, 43 callbacks x invocation index; "
-             "(3) FREE(2)+newline and 4 scaffolds",
-    "thorough": "(1) 3 callers, <= 3 pre-emptions; (2) fresh and warm instances, one free character in A; (3) FREE(3)",
+    "quick": "(1) rulers of 3 rules (symbolic enabled flags, 3 alt layouts), 2 callers on 3 chain pairs, 1 pre-emption at any statement, first use and just-invalidated cache; "
+             "(2) fixed documents, 43 callbacks x invocation index; (3) FREE(2)+newline (js-default) and 4 scaffolds",
+    "thorough": "(1) 2 pre-emptions, and 3 callers with 2 pre-emptions; (2) fresh and warm instances, one free character in A; (3) both presets",
 }
 OUTSIDE = ("pre-emption inside one statement (bytecode granularity); more pre-emptions/threads than the bound; transient writes to shared state undone within "
            "one rule call; concurrent reconfiguration (excluded by the property); interleavings of whole parses beyond the shared lazily-built rule cache")
@@ -47,7 +47,8 @@ def _e3():
 def _sched_free(params):
     fr = [Free(f"e{i}", kind="bool") for i in range(3)]
     for c in range(params["callers"]):
-        fr.append(Free(f"ch{c}", kind="int", lo=0, hi=2))
+        fixed = params.get("chains")
+        fr.append(Free(f"ch{c}", kind="int", lo=fixed[c] if fixed else 0, hi=fixed[c] if fixed else 2))
     for p in range(params["preempt"]):
         fr.append(Free(f"p{p}", kind="int", lo=0, hi=params.get("pmax", 45)))
     fr.append(Free("first", kind="int", lo=0, hi=params["callers"] - 1))
@@ -350,17 +351,19 @@ HARNESSES = {
 
 def jobs(tier, seed):
     jobs = []
-    callers = 2 if tier == "quick" else 3
-    pre = 2 if tier == "quick" else 3
+    pairs = [[0, 1], [1, 2], [0, 0]]
     for layout in range(len(ALT_LAYOUTS)):
         for inval in (False, True):
-            jobs.append({"harness": "schedule", "params": {"layout": layout, "callers": 2, "preempt": 2, "invalidated": inval, "pmax": 45},
-                         "weight": 10, "cpu_cap": 2400, "wall_cap": 3600})
+            for ch in pairs:
+                # one pre-emption (caller A paused at any statement, B runs to completion, A resumes)
+                jobs.append({"harness": "schedule", "params": {"layout": layout, "callers": 2, "preempt": 1, "invalidated": inval, "pmax": 45, "chains": ch},
+                             "weight": 4, "cpu_cap": 2400, "wall_cap": 3600})
+                if tier == "thorough":
+                    jobs.append({"harness": "schedule", "params": {"layout": layout, "callers": 2, "preempt": 2, "invalidated": inval, "pmax": 45, "chains": ch},
+                                 "weight": 40, "cpu_cap": 9000, "wall_cap": 10000})
             if tier == "thorough":
-                jobs.append({"harness": "schedule", "params": {"layout": layout, "callers": 3, "preempt": 2, "invalidated": inval, "pmax": 45},
-                             "weight": 30, "cpu_cap": 6000, "wall_cap": 7200})
-                jobs.append({"harness": "schedule", "params": {"layout": layout, "callers": 2, "preempt": 3, "invalidated": inval, "pmax": 45},
-                             "weight": 30, "cpu_cap": 6000, "wall_cap": 7200})
+                jobs.append({"harness": "schedule", "params": {"layout": layout, "callers": 3, "preempt": 2, "invalidated": inval, "pmax": 45, "chains": [0, 1, 2]},
+                             "weight": 60, "cpu_cap": 12000, "wall_cap": 13000})
     cfg = dict(S.JS)
     ranges = [(0, 6), (7, 11), (12, 17), (18, 18), (19, 21), (22, 25), (26, 29), (30, 33), (34, 38), (39, 42)]
     for lo, hi in ranges:
@@ -369,10 +372,14 @@ def jobs(tier, seed):
                          "weight": 8, "cpu_cap": 2400, "wall_cap": 3600})
     NOCR = {"exclude": "\r\0"}
     spec = {n: dict(NOCR) for n in "abcdefgh"}
-    k = 2 if tier == "quick" else 3
-    for cfgf in (S.JS, S.CM):
-        jobs.append({"harness": "frame", "params": {"cfg": cfgf, "scaffold": free_doc(k, "\n"), "spec": spec, "name": "free"},
-                     "weight": 12, "cpu_cap": 2400, "wall_cap": 3600})
+    from ..mdutil import shard_extras
+
+    for cfgf in ((S.JS,) if tier == "quick" else (S.JS, S.CM)):
+        for name, extra in shard_extras("a"):
+            sp = {k_: dict(v) for k_, v in spec.items()}
+            sp["a"] = dict(sp["a"], extra=extra)
+            jobs.append({"harness": "frame", "params": {"cfg": cfgf, "scaffold": free_doc(2, "\n"), "spec": sp, "name": "free", "shard": name},
+                         "weight": 12, "cpu_cap": 2400, "wall_cap": 3600})
     for sc in (["[a]: /u\n\n[a] ![", {"v": "a"}, "](x)\n"], ["> - ", {"v": "a"}, "\n\n```\nc\n```\n"], ["a|b\n-|-\n", {"v": "a"}, "|2\n"],
                ["*", {"v": "a"}, "* &amp; <b> \\", {"v": "b"}, "\n"]):
         jobs.append({"harness": "frame", "params": {"cfg": S.JS, "scaffold": sc, "spec": spec, "name": "ctx"},
